@@ -246,6 +246,15 @@ impl<'a> ProgGen<'a> {
         }
     }
 
+    /// a reference to a label (or any identifier) in a random letter case: names are case-insensitive
+    fn recase(&mut self, name: &str) -> String {
+        match self.rng.below(4) {
+            0 => name.to_ascii_uppercase(),
+            1 => name.to_ascii_lowercase(),
+            _ => name.to_owned(),
+        }
+    }
+
     fn fresh_name(&mut self, prefix: &str) -> String {
         self.fresh += 1;
         format!("{}{}", prefix, self.fresh)
@@ -315,7 +324,8 @@ impl<'a> ProgGen<'a> {
             } else if !self.in_sub || depth < 1 {
                 self.feat(if self.loop_depth > 0 { "goto-out-of-loop" } else { "goto-out-of-block" });
                 let l = self.fresh_name("Jo");
-                out.push(format!("IF {} THEN GOTO {}", c, l));
+                let r = self.recase(&l);
+                out.push(format!("IF {} THEN GOTO {}", c, r));
                 self.pending_labels.push(l);
             }
             return;
@@ -341,7 +351,8 @@ impl<'a> ProgGen<'a> {
                     self.print_stmt(&mut body);
                     self.counters_in_use = saved;
                     self.gosubs.push((name.clone(), body));
-                    self.emit(out, format!("GOSUB {}", name));
+                    let r = self.recase(&name);
+                    self.emit(out, format!("GOSUB {}", r));
                 } else if !self.subs.is_empty() {
                     self.call_stmt(out)
                 } else {
@@ -426,7 +437,8 @@ impl<'a> ProgGen<'a> {
                 if self.opts.goto_fwd && depth == self.opts.max_depth && self.counters_in_use.is_empty() {
                     self.feat("goto");
                     let l = self.fresh_name("Lb");
-                    self.emit(out, format!("GOTO {}", l));
+                    let r = self.recase(&l);
+                    self.emit(out, format!("GOTO {}", r));
                     self.print_stmt(out);
                     self.emit(out, format!("{}:", l));
                 } else {
@@ -457,8 +469,9 @@ impl<'a> ProgGen<'a> {
             3 => (lo + len, lo, Some("-1".to_owned())),
             4 => (lo, lo + 2 * len, Some("2".to_owned())),
             _ => {
-                // run-time computed step
-                let sv = self.var(Ty::Int);
+                // run-time computed step, of any numeric type
+                let st = if self.rng.chance(1, 2) { Ty::Int } else { self.num_tys() };
+                let sv = self.var(st);
                 if self.counters_in_use.contains(&sv) || sv == v {
                     (lo, lo + len, Some("1".to_owned()))
                 } else {
@@ -483,8 +496,9 @@ impl<'a> ProgGen<'a> {
         };
         self.emit(out, format!("FOR {} = {} TO {}{}", v, from, to, step_s));
         self.counters_in_use.push(v.clone());
+        let step_is_var = step.as_ref().map(|s| s.chars().next().map(|c| c.is_ascii_alphabetic()).unwrap_or(false)).unwrap_or(false);
         if let Some(s) = &step {
-            if s.ends_with('%') {
+            if step_is_var {
                 self.counters_in_use.push(s.clone());
             }
         }
@@ -492,10 +506,8 @@ impl<'a> ProgGen<'a> {
         let b = self.block(depth - 1);
         self.loop_depth -= 1;
         out.extend(Self::indent(b));
-        if let Some(s) = &step {
-            if s.ends_with('%') {
-                self.counters_in_use.pop();
-            }
+        if step.is_some() && step_is_var {
+            self.counters_in_use.pop();
         }
         self.counters_in_use.pop();
         if self.rng.chance(1, 3) {
@@ -630,7 +642,8 @@ impl<'a> ProgGen<'a> {
                 _ => "RESUME NEXT",
             };
             self.handlers.push((h.clone(), vec!["PRINT \"ERR\"; ERR".to_owned(), resume.to_owned()]));
-            main.push(format!("ON ERROR GOTO {}", h));
+            let r = self.recase(&h);
+            main.push(format!("ON ERROR GOTO {}", r));
         }
         let n = self.rng.range(2, self.opts.top_stmts as i64);
         for _ in 0..n {
